@@ -84,6 +84,14 @@ class Body:
     def local_name(self, l):
         return self.names.get(l)
 
+    def local_is_user_mut(self, l):
+        """a `let mut` variable of the source (as opposed to a compiler temporary or an immutable binding)"""
+        try:
+            d = self.locals[l]
+        except IndexError:
+            return False
+        return bool(d.get('user')) and bool(d.get('mut'))
+
 
 def callee(t):
     """resolved callee description of a call terminator: dict with path/full/resolved/... or None for indirect"""
